@@ -24,14 +24,15 @@ def frame():
     return df
 
 
-def metadata_findings(mm, out, term_syntax):
+def metadata_findings(mm, out, term_syntax, clustered=False):
+    """clustered: the spec was built with cluster_by=... - term ranges then follow the COLUMN order (a permutation of the formula's terms)."""
     try:
-        return _metadata_findings(mm, out, term_syntax)
+        return _metadata_findings(mm, out, term_syntax, clustered)
     except Exception as e:  # inconsistent metadata made the reading itself fail
         return [("metadata-inconsistent", f"reading the spec's metadata failed with {type(e).__name__}: {e}")]
 
 
-def _metadata_findings(mm, out, term_syntax):
+def _metadata_findings(mm, out, term_syntax, clustered=False):
     """Ground part: returns list of (tag, message). Works on symbolic or float matrices."""
     spec = mm.model_spec
     labels = list(spec.column_names)
@@ -46,7 +47,10 @@ def _metadata_findings(mm, out, term_syntax):
     # term index ranges: contiguous, disjoint, in term order, covering
     pos = 0
     terms = list(spec.term_indices.items())
-    if [t for t, _ in terms] != list(spec.formula):
+    if clustered:
+        if sorted(map(repr, (t for t, _ in terms))) != sorted(map(repr, spec.formula)) or len(terms) != len(list(spec.formula)):
+            bad.append(("term-order", f"term_indices keys {[t for t, _ in terms]} are not a permutation of the formula's terms {list(spec.formula)}"))
+    elif [t for t, _ in terms] != list(spec.formula):
         bad.append(("term-order", f"term_indices keys {[t for t, _ in terms]} are not the formula's terms in order {list(spec.formula)}"))
     for t, idx in terms:
         if idx != list(range(pos, pos + len(idx))):
